@@ -88,3 +88,57 @@ func ZZ_C09_gate() {
 	nondet.Reach("C09.gate.boundary-open", fullPresent && fullAge == freq)
 	nondet.Reach("C09.gate.create-delayed", !gated && createPresent && createAge < freq)
 }
+
+// ZZ_C09_gateAfterFaults: "as long as its status writes succeed, two syncs of the same replica
+// set that create or delete pods are at least reconcileFrequency apart" — also when some pod
+// operation of the first sync fails: a sync whose status write succeeded stamps its own
+// instant, and a second sync arriving right after it touches no pod.
+func ZZ_C09_gateAfterFaults() {
+	c, ds, rsNew, _ := zzStore(3)
+	ds.Status.ActiveReplicaSet = rsNew.Name
+	two := intstr.FromInt(2)
+	ds.Spec.Strategy.RollingUpdate.MaxUnavailable = &two
+	// node0 and node1 run outdated available pods, node2 an up-to-date one
+	c.Pods = append(c.Pods,
+		zzPod("old0", zzNodeName(0), zzOldRS, zzHashOld, 0, corev1.PodRunning, true, nondet.Base().Add(-time.Hour)),
+		zzPod("old1", zzNodeName(1), zzOldRS, zzHashOld, 0, corev1.PodRunning, true, nondet.Base().Add(-time.Hour)),
+		zzPod("new2", zzNodeName(2), zzRSName, zzHashNew, 0, corev1.PodRunning, true, nondet.Base().Add(-time.Hour)))
+	c.InjectFaults = true
+	_, _ = zzReconcile(zzReconciler(c, false), zzNS, rsNew.Name)
+	c.InjectFaults = false
+	n1 := len(c.Log)
+	podOps1, statusOK := 0, false
+	for _, e := range c.Log {
+		if e.Kind == "Pod" && (e.Verb == "create" || e.Verb == "delete") && e.Applied {
+			podOps1++
+		}
+		if e.Verb == "status-update" && !e.Failed {
+			statusOK = true
+		}
+	}
+	// a request for the same replica set arrives right away (same wall-clock second)
+	res2, err2 := zzReconcile(zzReconciler(c, false), zzNS, rsNew.Name)
+	podOps2 := 0
+	for _, e := range c.Log[n1:] {
+		if e.Kind == "Pod" && (e.Verb == "create" || e.Verb == "delete") {
+			podOps2++
+		}
+	}
+	if statusOK {
+		var stamp *metav1.Time
+		for _, s := range c.ERS {
+			if s.Name == rsNew.Name {
+				for i := range s.Status.Conditions {
+					if s.Status.Conditions[i].Type == datadoghqv1alpha1.ConditionTypeLastFullSync {
+						stamp = &s.Status.Conditions[i].LastUpdateTime
+					}
+				}
+			}
+		}
+		nondet.Assert("C09.faults.stamped", stamp != nil)
+		nondet.Assert("C09.faults.second-sync-spaced", err2 == nil && podOps2 == 0 && res2.RequeueAfter > 0)
+	}
+	nondet.Observe("podOps2", podOps2)
+	nondet.Reach("C09.faults.partial-failure", statusOK && podOps1 >= 1 && len(c.Writes()) > podOps1+1)
+	nondet.Reach("C09.faults.status-failed", !statusOK)
+}
